@@ -183,6 +183,25 @@ func init() {
 			return mainOnly(nil, hs.LetS("fs", hs.List(mkLit(1), mkLit(2))), hs.Println(hs.CallE(hs.Idx(hs.V("fs"), hs.I(0)), hs.I(10)), hs.CallE(hs.Idx(hs.V("fs"), hs.I(1)), hs.I(10))),
 				hs.LetS("o", &hs.ObjLit{Fields: []hs.ObjField{{Name: "inc", X: mkLit(7)}}}), hs.Println(hs.MCall(hs.V("o"), "inc", hs.I(1))))
 		}},
+		callCase{"function-literals-nested-in-each-other-then-later-literals", func() *hs.Program {
+			// every literal of a module is a function of its own: literals nested one, two and three
+			// deep, each followed by later literals in the same function and in other functions
+			one := func(body *hs.Block) *hs.FnLit {
+				return &hs.FnLit{Params: []hs.Field{{Name: "x", T: hs.TInt}}, Ret: hs.TInt, Body: body}
+			}
+			leaf := func(k int64) *hs.FnLit { return one(hs.Blk(hs.Bin("+", hs.Bin("*", hs.V("x"), hs.I(10)), hs.I(k)))) }
+			nest2 := one(hs.Blk(hs.Bin("+", hs.CallN("inner", hs.V("x")), hs.I(1)), hs.LetS("inner", leaf(2))))
+			nest3 := one(hs.Blk(hs.Bin("+", hs.CallN("mid", hs.V("x")), hs.I(100)), hs.LetS("mid", one(hs.Blk(hs.Bin("-", hs.CallN("inner", hs.V("x")), hs.CallN("inner2", hs.I(1))), hs.LetS("inner", leaf(3)), hs.LetS("inner2", leaf(4)))))))
+			mk := hs.Fn("make", hs.TFn(hs.TInt, hs.Field{Name: "x", T: hs.TInt}), hs.Blk(one(hs.Blk(hs.Bin("+", hs.CallN("g", hs.V("x")), hs.I(5000)), hs.LetS("g", leaf(5))))))
+			other := hs.Fn("other", hs.TInt, hs.Blk(hs.CallN("f", hs.V("v")), hs.LetS("f", leaf(6))), intP("v"))
+			return mainOnly([]*hs.Func{mk, other},
+				hs.LetS("outer", nest2), hs.LetS("sibling", leaf(7)),
+				hs.Println(hs.CallN("outer", hs.I(4))), hs.Println(hs.CallN("sibling", hs.I(4))),
+				hs.LetS("deep", nest3), hs.LetS("after", leaf(8)),
+				hs.Println(hs.CallN("deep", hs.I(2))), hs.Println(hs.CallN("after", hs.I(2))),
+				hs.Println(hs.CallE(hs.CallN("make"), hs.I(1))), hs.Println(hs.CallN("other", hs.I(1))),
+				hs.Println(hs.CallN("outer", hs.I(5))), hs.Println(hs.CallN("sibling", hs.I(5))))
+		}},
 		callCase{"function-as-argument", func() *hs.Program {
 			ft := hs.TFn(hs.TInt, hs.Field{Name: "x", T: hs.TInt})
 			ap := hs.Fn("apply", hs.TInt, hs.Blk(hs.CallN("f", hs.CallN("f", hs.V("v")))), hs.P("f", ft), intP("v"))
